@@ -186,6 +186,62 @@ CLAIMS = {
              'alias/junk/unicode strings, nested lists, booleans, None). Observed and outside the stated domain: mv_str raises TypeError for '
              'arrays with more than two axes; unpackbits raises for 0-d and for non-contiguous arrays of multi-byte dtypes (ndarray.view); '
              'p >= 2 one-character pattern strings form one vector (documented character rule).'),
+    'C11': dict(
+        technique='Coq proofs over a hand transcription of the elaboration helpers of verilog.py and of the bench elaborator (exact correspondence on generated '
+                  'tokens / modules / bench files) + differential oracle with generator-owned netlists rendered as Verilog and bench text',
+        text='Proof (partial by construction: the lark grammars and passes 1-2 of VerilogTransformer.module are outside the model). Proved for ALL inputs over '
+             'Model/VerilogElab.v: [l:r] expands to |l-r|+1 bit names in declared direction (also for part selects), bit names are injective; w\'bN / w\'dN / '
+             'w\'hN give exactly w one-bit constants, MSB first, of value N mod 2^w; concat = flat_map; the port position table numbers the port bits 0..n-1 in '
+             'port-list order with bus bits in declared range order, no position twice, and io_nodes is exactly that list with the declared directions (no '
+             'holes) when names are unambiguous; for bench: every assignment z = KIND(a_0..a_n) of an accepted description yields THE cell named z of that '
+             'kind whose k-th input pin is driven by the fork a_k and whose output drives fork z. The models are compared with the real methods / parsers on '
+             'every run (results incl. exceptions; bench: every node, line, pin, io). Everything else (text -> tree, named pins, assigns, constants, branch '
+             'forks, library resolution, both formats) is decided by an oracle: a generator owns flat netlists over all five libraries, renders them with '
+             'surface variation, and compares io order, exhaustive truth tables (LogicSim m=2, flip-flops through state positions), the structure added by '
+             'branchforks=True and the bench rendering against its own evaluation.',
+        design_ref='5/C11',
+        note='Modelled not verified: VerilogTransformer.range/sigsel/concat, SignalDeclaration.names, declaration, pass 0 / positions / io_nodes of module, '
+             'BenchTransformer + Node/Line constructors. Not modelled (oracle only): grammars, passes 1, 1.5, 2 of module, TechLib, substitute. The full theorem '
+             'verilog_sem is stated as a comment in Properties/C11.v. Cell functions of the oracle are the datasheet families of C19. Out of the generated '
+             'subset: positional pins, concatenations / wide constants on pins, ANSI headers (all rejected with an exception), floating cell inputs, assign '
+             'width mismatches, escaped scalars that collide with a bus bit name.'),
+    'C14': dict(
+        technique='Coq proof of slot-by-slot theorems over a Gallina transcription of the SDF transformer callbacks and of DelayFile.iopaths/interconnects; '
+                  'exact correspondence on generated (tree, circuit) cases incl. exceptions; generator-owned ground-truth oracle on Verilog x SDF renderings',
+        text='Proof (elaboration full, grammar by correspondence only). From the tree that the lark grammar hands to the transformer on, everything is '
+             'modelled: triple/sanitize/cell/start, DelayFile.__init__, iopaths, interconnects (string processing of escaped names, edge qualifiers and '
+             'pin references included). Proved for ALL block sequences: grouping keeps every entry of every CELL block per instance in file order '
+             '(repeated instances, several instance-less blocks, several DELAY sections); for ALL circuits/files: the returned array is the zero array '
+             'overwritten in application order -- each [line, in-pol, out-pol] slot holds the rising/falling triple of the LAST entry addressing it '
+             '(line = position of the named pin in the cell; "(posedge P)"/"(negedge P)" -> that input polarity only; one triple -> both output '
+             'polarities; "()" and empty components -> 0; dataset axis first), every other slot is 0; interconnects likewise on the input line of the '
+             'single-output fork between the two pins, broadcast over axis 2. The statement about grouping is FALSE for the pinned code (dict(...) keeps '
+             'only the last block of an instance, D6; witness theorem C14_cells_lost_refuted); it holds for the code with the proposed 3-line fix.',
+        design_ref='5/C14',
+        note='Not modelled: lark grammar/lexer, float() of decimal strings (generated values are k/8), numpy broadcasting, verilog.parse. Supported subset: '
+             'non-negative delays (the skip test max(max(delvals))==0 drops e.g. "(0:0:0) (-1:0:0)"; for non-negative delays it drops exactly the all-zero '
+             'entries, proved), one spelling per instance name in a file, INTERCONNECT to an output port only on fan-out-free nets (no branch fork is '
+             'created for ports), an instance-less block exists when interconnects() is called (else TypeError), IOPATHs of unconnected pins above the '
+             'highest connected pin raise IndexError. One slot per (line, in-pol, out-pol): IOPATHs of one input to several outputs collide by design.'),
+    'C18': dict(
+        technique='Coq proofs by induction over chains / port lists about a hand transcription of StilFile.__init__/_maps/tests/responses/'
+                  'tests_loc; exact correspondence incl. error cases; differential tests through a STIL generator that owns the ground truth',
+        text='Proof (elaboration full, grammar by correspondence). For ALL circuits, chains, marker placements, signal-group orders and '
+             'strings satisfying wf_scan (distinct interface names, every scan port in one chain, every cell at one place): the cell '
+             'pre ++ cell :: post of a chain receives character number ncell(post) of the load string, inverted iff an odd number of "!" '
+             'markers lies between scan-in and the cell (unknown/unassigned untouched); responses() likewise with the markers between the '
+             'cell and scan-out; _pi/_po characters go to the interface position of the group member; the interface list is '
+             'Circuit.s_nodes (Model/Netlist.s_nodes); tests_loc yields mv_transition(loaded value, simulated next state or -- without '
+             'launch clock -- the loaded value) per flip-flop and mv_transition(launch character, capture character) per input, and '
+             'mv_transition equals the documented table on all 64 operand pairs. The pinned-tree code is transcribed as well '
+             '(maps_gen false) and refuted by a witness chain. The lark grammar is not modelled: generated STIL text (TetraMAX dialect) '
+             'is parsed and groups/chains/calls, tests, responses, tests_loc are compared with the generator\'s intent; the shipped b15 '
+             'files are compared with an independent regex reading.',
+        design_ref='5/C18',
+        note='Modelled not verified: StilFile.__init__, _maps, tests, responses, tests_loc (Model/Stil.v; numpy broadcasting of 1-D operands '
+             'modelled by bshape/bget/assign). Not modelled: the STIL grammar/StilTransformer. The logic simulation inside tests_loc is an '
+             'input of the model (C01/C02 cover LogicSim); the oracle evaluates the next state itself (Kleene). Domain: chain lists have '
+             'both port entries; kinds are ASCII; a one-row interface (numpy would broadcast it) is excluded.'),
 }
 
 NOT_YET = 'check not built yet in this session (see DESIGN.md section 8 build order); no claim is made'
